@@ -13,7 +13,9 @@ def extra_entries():
     from nflows.flows.realnvp import SimpleRealNVP
     from nflows.flows.base import Flow
     from nflows.distributions import normal, mixture
-    from nflows.transforms import permutations as perm, base, conv, nonlinearities as nl, made, normalization as norm_, standard as std_, lu as lu_
+    from nflows.transforms import permutations as perm, base, conv, nonlinearities as nl, made, normalization as norm_, standard as std_, lu as lu_, coupling as cp_
+    from nflows.utils import torchutils as tu_
+    from nflows.nn import nets as nets_
     return [
         ("MaskedAutoregressiveFlow(random masks, perms)", lambda: MaskedAutoregressiveFlow(4, 8, 2, 1, use_residual_blocks=False, use_random_masks=True, use_random_permutations=True, batch_norm_within_layers=True, batch_norm_between_layers=True), [4], None),
         ("SimpleRealNVP", lambda: SimpleRealNVP(4, 8, 2, 1, batch_norm_between_layers=True), [4], None),
@@ -22,6 +24,11 @@ def extra_entries():
         ("Flow(RandomPermutation+1x1conv, StandardNormal)", lambda: Flow(base.CompositeTransform([perm.RandomPermutation(3), nl.LeakyReLU()]), normal.StandardNormal([3])), [3], None),
         ("Composite(ActNorm, LeakyReLU, ActNorm)", lambda: base.CompositeTransform([norm_.ActNorm(3), nl.LeakyReLU(0.2), norm_.ActNorm(3)]), [3], None),
         ("Flow(Composite(ActNorm, Affine), StandardNormal)", lambda: Flow(base.CompositeTransform([norm_.ActNorm(3), std_.PointwiseAffineTransform(0.3, 1.7)]), normal.StandardNormal([3])), [3], None),
+        # masks drawn at construction (another seed draws another mask): the restored layer has to split the features as the SAVED one did
+        ("AffineCoupling(random mask, 2 features)", lambda: cp_.AffineCouplingTransform(tu_.create_random_binary_mask(2), lambda i, o: nets_.ResidualNet(i, o, 4, num_blocks=1)), [2], None),
+        ("AffineCoupling(random mask, 4 features)", lambda: cp_.AffineCouplingTransform(tu_.create_random_binary_mask(4), lambda i, o: nets_.ResidualNet(i, o, 4, num_blocks=1)), [4], None),
+        ("PiecewiseRQCoupling(random mask, 4 features)", lambda: cp_.PiecewiseRationalQuadraticCouplingTransform(
+            tu_.create_random_binary_mask(4), lambda i, o: nets_.ResidualNet(i, o, 4, num_blocks=1), num_bins=3, tails="linear", tail_bound=3.0), [4], None),
         ("LULinear(5 features)", lambda: lu_.LULinear(5, identity_init=False), [5], None),
         ("OneByOneConvolution(4 channels)", lambda: conv.OneByOneConvolution(4, identity_init=False), [4, 2, 2], None),
         ("MADE(random mask)", None, None, None),
